@@ -170,6 +170,8 @@ fn cmd_replay(args: &[String]) -> i32 {
             }
             Some("path") => {
                 let id = v["id"].as_u64().unwrap();
+                // progress marker: lets the driver attribute a crash of the code under test to a path
+                let _ = std::fs::write(format!("{}/progress.{}.{}", outdir, prim, flavour), id.to_string());
                 let mut sut = match make_sut(prim, flavour, &consts) {
                     Some(s) => s,
                     None => {
@@ -272,6 +274,9 @@ fn cmd_random(args: &[String]) -> i32 {
             if e["op"] == "idle" {
                 break;
             }
+            r.step(&e, None, false);
+        }
+        for e in r.sut.cleanup_ops() {
             r.step(&e, None, false);
         }
         let res = r.finish();
